@@ -205,6 +205,26 @@ def gen_ops(cfg, amap, rng, word_bytes):
                 else:
                     ops.append(Op(rng.choice([0, 0, 1, 2]), False, addr_of(rng.choice(hot_banks), r1, rng.randrange(ncolw))))
                 k += n + 1
+        elif cls == "write-pair-sweep":
+            # two row-hit writes with every spacing 0..13, then immediately a read of another (open) bank or another row of
+            # the written bank: re-triggers the write-to-read / write-to-precharge timers in every phase relation
+            k = 0
+            it = 0
+            b2 = hot_banks[1 % len(hot_banks)]
+            while k < nops:
+                b = hot_banks[0]
+                r1 = hot_rows[0]
+                s = (it + (p * 5)) % 14
+                ops.append(Op(24, True, addr_of(b, r1, rng.randrange(ncolw))))
+                ops.append(Op(s, True, addr_of(b, r1, rng.randrange(ncolw))))
+                if it % 2 == 0:
+                    ops.append(Op(0, False, addr_of(b2, hot_rows[0], rng.randrange(ncolw))))
+                else:
+                    ops.append(Op(0, rng.random() < 0.5, addr_of(b, hot_rows[1 % len(hot_rows)] if it % 4 == 1 else rng.randrange(nrows),
+                                                                 rng.randrange(ncolw))))
+                ops.append(Op(0, False, addr_of(b2, hot_rows[0], rng.randrange(ncolw))))
+                k += 4
+                it += 1
         elif cls == "cold-rows":
             # every access opens a new row: ACT shortly before refresh requests
             for k in range(nops):
